@@ -35,14 +35,14 @@ Example not_null_safe_premise :
   let g := mkCfg false true 3 false in
   let evs := [(0, ins1 1 10); (0, AAuto [SUpd (WId 1) true (VInt 20)]); (0, AAuto [SUpd WAll false VNull]);
               (0, AAuto [SIns (MDoUpdate true (VInt 7)) [(Some (VInt 1), VInt 3, VNull)]])] in
-  forallb (ev_safe g cur_code true false) evs = true /\
-  live_rows (s_c (run g cur_code evs)) = [(1%Z, mkRow (VInt 7) VNull)].
+  forallb (ev_safe g old_code true false) evs = true /\
+  live_rows (s_c (run g old_code evs)) = [(1%Z, mkRow (VInt 7) VNull)].
 Proof. vm_compute. split; reflexivity. Qed.
 Example check_safe_premise :
   let g := mkCfg false false 3 true in
   let evs := [(0, ins1 1 10); (0, AAuto [SUpd (WId 1) true (VInt 20)]);
               (0, AAuto [SIns (MDoUpdate true (VInt 7)) [(Some (VInt 1), VInt 3, VNull)]]);
               (0, AAuto [SUpd (WId 1) true (VInt (-1))])] in
-  forallb (ev_safe g cur_code false true) evs = true /\
-  live_rows (s_c (run g cur_code evs)) = [(1%Z, mkRow (VInt 7) VNull)].
+  forallb (ev_safe g old_code false true) evs = true /\
+  live_rows (s_c (run g old_code evs)) = [(1%Z, mkRow (VInt 7) VNull)].
 Proof. vm_compute. split; reflexivity. Qed.
